@@ -784,6 +784,30 @@ theorem C17_cluster_local_order {ι} (clusters : List P) (assignOf : ι → Nat)
   funext p
   exact accumulate_perm size (vzero p) _ _ (h.filter _)
 
+/-- `hypRound` is `hypRoundWith` at the first-minimum assignment -/
+theorem hypRound_eq_with {ι β γ σc σs} [DecidableEq ι] (avgLoss : P → γ → Key → Rat)
+    (splitN : Key → Nat → List Key) (grad : P → β → Key → P) (copt : Optimizer σc)
+    (sopt : Optimizer σs) (s : List (ServerState σs)) (clients : List (HClient ι β γ)) :
+    hypRound avgLoss splitN grad copt sopt s clients
+      = hypRoundWith (dictGet (fun c : HClient ι β γ => c.id) (hypAssign avgLoss splitN (s.map (·.params))) 0 clients)
+          grad copt sopt s clients := rfl
+
+/-- **Cluster-local update for any assignment** (in particular for any way of breaking ties among
+clusters of minimal loss): cluster `i` is updated from exactly the clients assigned to `i`, or kept
+verbatim when they hold no example. -/
+theorem C17_cluster_local_any_assignment {ι β γ σc σs} [DecidableEq ι] (assignOf : ι → Nat)
+    (grad : P → β → Key → P) (copt : Optimizer σc) (sopt : Optimizer σs) (s : List (ServerState σs))
+    (clients : List (HClient ι β γ)) (i : Nat) :
+    (hypRoundWith assignOf grad copt sopt s clients)[i]?
+      = (s[i]?).map fun cl => hypServer sopt cl (hypDelta (accumulate (FedAvg.sizeOf (clients.map (·.toClient)))
+          (vzero cl.params)
+          ((hypResults grad copt (s.map (·.params)) assignOf clients).filter fun r => assignOf r.1 = i))) := by
+  unfold hypRoundWith
+  simp only [List.getElem?_zipWith, List.getElem?_map]
+  rw [hypSums_local]
+  simp only [List.getElem?_map]
+  cases s[i]? <;> rfl
+
 theorem dictGet_of_mem {κ ι α} [DecidableEq ι] (idOf : κ → ι) (val : κ → α) (d : α) (clients : List κ)
     (hnd : (clients.map idOf).Nodup) (c : κ) (hc : c ∈ clients) :
     dictGet idOf val d clients (idOf c) = val c := by
@@ -1055,5 +1079,9 @@ example : apflEvalParams [2] (⟨[1, 2], (), [(7, ⟨[5, 9], [1/2]⟩)]⟩ : Apf
 /-- two clusters, results yielded in two different orders -/
 example : hypSums [[0], [0]] (fun i : Nat => i % 2) (fun _ => 2) [(1, [1]), (2, [3]), (3, [5])]
     = hypSums [[0], [0]] (fun i : Nat => i % 2) (fun _ => 2) [(3, [5]), (2, [3]), (1, [1])] := by decide +kernel
+
+/-- a tie (both clusters equal): the last-minimum assignment updates cluster 1 and leaves cluster 0 -/
+example : (hypRoundWith (fun _ : Nat => 1) exGrad (sgd (1/2)) (sgd 1) [⟨[1], ()⟩, ⟨[1], ()⟩]
+    ([⟨⟨1, 2, [1], [false]⟩, 0⟩] : List (HClient Nat Nat Nat))).map (·.params) = [[1], [1/2]] := by decide +kernel
 
 end FedjaxVerif.Invariants
